@@ -303,7 +303,7 @@ class C05(TreeSpec):
     id = "C05"
     engine_every = 5  # every allocate reached through Rebalance & co. inside real Backtest runs is judged too
     judged = ("C05",)
-    own_checks = ("c05_sizing_exception", "c05_refuse", "c05_refuse_state", "c05_zero_amount", "c05_close", "c05_integral", "c05_overspend", "c05_underfill", "c05_cash", "c05_probe_booked", "c05_position")
+    own_checks = ("c05_sizing_exception", "c05_refuse", "c05_refuse_state", "c05_refuse_spurious", "c05_zero_amount", "c05_close", "c05_integral", "c05_overspend", "c05_underfill", "c05_cash", "c05_probe_booked", "c05_position")
     rule = TreeSpec.rule + "; every SecurityBase.allocate call of the run (direct, via rebalance/close/flatten/spread) is judged against the budget rule; non-trivial additionally needs >= 1 judged allocate"
 
     def profile_for(self, r, i):
@@ -1329,6 +1329,11 @@ class C13(Spec):
         raw = [r.random() for _ in sel]
         tot = sum(raw) / r.choice([1.0, 0.8])
         w = {t: round(x / tot, 4) for t, x in zip(sel, raw)}
+        if r.random() < 0.4:
+            # long/short books: the deviation of a short target is relative to a negative weight
+            for t in r.sample(sel, r.randint(1, len(sel))):
+                w[t] = -w[t]
+            fired["short_targets"] = 1
         st = [{"a": "WeighSpecified", "weights": w}]
         cash = r.random() < 0.15
         if cash:
@@ -1482,6 +1487,11 @@ class C19(Spec):
                    "algos": [{"a": "Spy", "id": 900}, drive_engine.sched_spec(r, plan["feed"]["dates"]), {"a": "SelectAll"}, {"a": "WeighEqually"}, {"a": "Rebalance"}]}
             plan["tree"]["children"][plan["tree"]["children"].index(old)] = mid
             plan.setdefault("fired", {})["three_levels"] = 1
+        # a mixed state before the push: some sub-tree was switched to the other position mode by hand
+        inner_strats = [s2 for p2, s2 in drive_engine.trees.strategies(plan["tree"]) if len(p2) > 1]
+        if inner_strats and r.random() < 0.3:
+            r.choice(inner_strats)["pre_int"] = r.random() < 0.5
+            plan.setdefault("fired", {})["preset_position_mode_on_subtree"] = 1
         plan["cfg"]["obs_eod"] = False
         if plan["cfg"].get("comm") is None and r.random() < 0.5:
             plan["cfg"]["comm"] = {"kind": "prop", "rate": 0.001}
@@ -2091,7 +2101,12 @@ class C14(Spec):
                 inner = {"a": a, "args": [r.choice([1, 2, 3, 0.34, 0.5, 0.99, len(tickers)])], "kw": {"sort_descending": r.random() < 0.6, "all_or_none": r.random() < 0.3, "filter_selected": r.random() < 0.5}}
             elif a == "SelectWhere":
                 nm = "sig%d" % bi
-                extra[nm] = drive_engine._frame(tickers, [[r.random() < 0.6 for _ in tickers] for _ in dates], dtype="bool")
+                if r.random() < 0.6:
+                    extra[nm] = drive_engine._frame(tickers, [[r.random() < 0.6 for _ in tickers] for _ in dates], dtype="bool")
+                else:
+                    # an indicator with holes (a shifted / re-indexed / warming-up signal): 1, 0 or missing - missing is not True
+                    extra[nm] = drive_engine._frame(tickers, [[(None if r.random() < 0.25 else (1.0 if r.random() < 0.6 else 0.0)) for _ in tickers] for _ in dates])
+                    fired["signal_with_holes"] = 1
                 inner = {"a": a, "args": [nm], "kw": flags()}
             elif a == "SelectRandomly":
                 inner = {"a": a, "kw": dict(flags(), n=r.choice([None, 1, 2, 10]))}
@@ -2202,7 +2217,7 @@ class C15(Spec):
             elif a == "WeighSpecified":
                 inner = {"a": a, "weights": wvec(sel or full[:1])}
             elif a == "ScaleWeights":
-                pre.append({"a": "WeighSpecified", "weights": wvec(sel or full[:1])})
+                pre.append({"a": "Wrap", "inner": {"a": "WeighSpecified", "weights": wvec(sel or full[:1])}})
                 inner = {"a": a, "args": [r.choice([0.5, -1.0, 2.0, 0.0])]}
             elif a == "WeighTarget":
                 nm = "tw%d" % bi
@@ -2223,10 +2238,10 @@ class C15(Spec):
                     # everything in one name, the others at zero
                     names_ = list(pw)
                     pw = {n: (1.0 if n == names_[0] else 0.0) for n in names_}
-                pre.append({"a": "WeighSpecified", "weights": pw})
+                pre.append({"a": "Wrap", "inner": {"a": "WeighSpecified", "weights": pw}})
                 inner = {"a": a, "kw": {"limit": r.choice([0.1, 0.3, 0.4, 0.6, 0.9])}}
             else:
-                pre.append({"a": "WeighSpecified", "weights": wvec(sel if len(sel) >= 2 else full[:2] if len(full) >= 2 else full)})
+                pre.append({"a": "Wrap", "inner": {"a": "WeighSpecified", "weights": wvec(sel if len(sel) >= 2 else full[:2] if len(full) >= 2 else full)}})
                 inner = {"a": a, "args": [r.choice([0.05, 0.1, 0.2])], "kw": win()}
             branches.append({"a": "AlgoStack", "algos": pre + [{"a": "Wrap", "inner": inner}]})
         # trading tail: a live portfolio that drifts, LimitDeltas / PTE_Rebalance judged against it
@@ -2246,7 +2261,10 @@ class C15(Spec):
                 data.append([ws.get(n) for n in full])
             extra[nm] = drive_engine._frame(full, data, rows=rows)
             lim = r.choice([0.02, 0.05, 0.2, {full[0]: 0.03}])
-            tail += [{"a": "WeighTarget", "args": [nm]}, {"a": "Wrap", "inner": {"a": "LimitDeltas", "kw": {"limit": lim}}}, {"a": "Rebalance"}]
+            # (a third of these tails take their targets from WeighSpecified: what LimitDeltas does to the dict it is handed must
+            # not leak into the specification of the next date)
+            src_w = {"a": "WeighTarget", "args": [nm]} if r.random() < 0.67 else {"a": "Wrap", "inner": {"a": "WeighSpecified", "weights": tailw}}
+            tail += [src_w, {"a": "Wrap", "inner": {"a": "LimitDeltas", "kw": {"limit": lim}}}, {"a": "Rebalance"}]
         else:
             tail += [{"a": "Or", "algos": [{"a": "RunOnDate", "dates": [dates[warm]]}, {"a": "Wrap", "inner": {"a": "PTE_Rebalance", "args": [r.choice([0.002, 0.01, 0.03]), "@" + nmw], "kw": win()}}]}, {"a": "WeighSpecified", "weights": tailw}, {"a": "Rebalance"}]
         root = {"k": "S", "name": "top", "cls": "Strategy", "fi": False, "how": "list", "children": [], "algos": [{"a": "RunAfterDate", "date": dates[warm - 1]}, {"a": "Or", "algos": branches + [{"a": "AlgoStack", "algos": tail}]}]}
